@@ -203,12 +203,20 @@ class RepoIndex(object):
                 raise AnalysisError("anchor %s:%s not found" % (modname, qualname))
             return m.classes[c].methods[f]
         if qualname not in m.funcs:
+            # moved to another module of the package and imported back under the same name: the function the module's
+            # name is bound to is the anchor (what a caller of modname.qualname runs)
+            b = self.namespace(modname).get(qualname)
+            if b is not None and b.kind == "func" and getattr(b.target, "node", None) is not None:
+                return b.target
             raise AnalysisError("anchor function %s:%s not found" % (modname, qualname))
         return m.funcs[qualname]
 
     def cls(self, modname, name):
         m = self.module(modname)
         if name not in m.classes:
+            b = self.namespace(modname).get(name)
+            if b is not None and b.kind == "class" and getattr(b.target, "methods", None) is not None:
+                return b.target
             raise AnalysisError("anchor class %s:%s not found" % (modname, name))
         return m.classes[name]
 
